@@ -83,26 +83,26 @@ func Explore(rep *kit.Report, env kit.Env, sc Scenario, bound int, top *int) Sta
 			rep.Violate(sc.Name+"/harness-divergence", "replay of a schedule prefix diverged: "+ex.Res.Diverged, replay)
 			return
 		}
-		if ex.Res.Deadlock {
-			ex.Bad("deadlock", "all unfinished threads are blocked on locks (deadlock); blocked ops: %s", lastOps(ex.Res))
-		}
-		for _, p := range ex.Res.Panics {
-			ex.Bad("panic", "%s", p)
-		}
 		// determinism gate: the first executions, 1 in 64, and every violating one.
-		if st.Execs <= 3 || st.Execs%64 == 0 || len(ex.Viol) > 0 {
+		if bad := len(ex.Viol) > 0 || ex.Res.Deadlock || len(ex.Res.Panics) > 0; st.Execs <= 3 || st.Execs%64 == 0 || bad {
 			n := 1
-			if len(ex.Viol) > 0 {
+			if bad {
 				n = 4
 			}
 			for i := 0; i < n; i++ {
 				ex2 := sc.Run(prefix)
 				st.GateRuns++
-				if ex2.Sig != ex.Sig || len(ex2.Res.Points) != len(ex.Res.Points) || len(ex2.Viol) != len(ex.Viol) {
+				if ex2.Sig != ex.Sig || len(ex2.Res.Points) != len(ex.Res.Points) || len(ex2.Viol) != len(ex.Viol) || ex2.Res.Deadlock != ex.Res.Deadlock || len(ex2.Res.Panics) != len(ex.Res.Panics) {
 					rep.Violate(sc.Name+"/harness-nondeterminism", fmt.Sprintf("replaying schedule %v gave different observations (%q vs %q; %d vs %d points): uncontrolled nondeterminism in the harness", prefix, ex.Sig, ex2.Sig, len(ex.Res.Points), len(ex2.Res.Points)), replay)
 					return
 				}
 			}
+		}
+		if ex.Res.Deadlock {
+			ex.Bad("deadlock", "all unfinished threads are blocked on locks for ever (deadlock: these workers never finish, nothing else can take the locks they hold); last operations: %s", lastOps(ex.Res))
+		}
+		for _, p := range ex.Res.Panics {
+			ex.Bad("panic", "%s", p)
 		}
 		for _, v := range ex.Viol {
 			rep.Violate(sc.Name+"/"+v[0], fmt.Sprintf("%s — schedule %v (%s)", v[1], prefix, describe(ex.Res)), replay)
